@@ -707,12 +707,17 @@ def time_at_sample_from_tof(
     :
         :math:`t_{sample}`
     """
-    c = as_float_type(
-        sc.to_unit(
-            const.h / const.m_n,
-            sc.units.angstrom * elem_unit(L2) / elem_unit(tof),
-            copy=False,
-        ),
-        tof,
-    )
+    # Single precision only if all operands are single precision, else every operand
+    # is promoted first so that a double-precision result is accurate to double precision.
+    operands = (pulse_time, tof, L2, wavelength)
+    if all(elem_dtype(x) == sc.DType.float32 for x in operands):
+        dtype = sc.DType.float32
+    else:
+        dtype = sc.DType.float64
+    c = sc.to_unit(
+        const.h / const.m_n,
+        sc.units.angstrom * elem_unit(L2) / elem_unit(tof),
+        copy=False,
+    ).astype(dtype, copy=False)
+    pulse_time, tof, L2, wavelength = (x.astype(dtype, copy=False) for x in operands)
     return pulse_time + tof - L2 * wavelength / c
